@@ -258,6 +258,7 @@ def params_dict(
     active_sets=ACTIVE_SETS,
     numeric=True,
     default_bias=True,
+    rare=True,
 ):
     """Algorithmic options only (no limits, no observers, no scaling)."""
     p = {}
@@ -278,6 +279,22 @@ def params_dict(
         p["rho"] = draw(st.sampled_from([1e-8, 1e-2, 1.0, 100.0]))
         p["lamb_init"] = draw(st.sampled_from([1e-3, 1.0, 1.0, 1e3]))
         p["lamb_inc"] = draw(st.sampled_from([2.0, 4.0]))
+        if rare and draw(st.integers(0, 2)) == 0:
+            # rarely changed knobs (defaults stay dominant); the oracles read tolerances from Params
+            knobs = {
+                "opt_tol": [1e-4, 1e-8],
+                "newton_tol": [1e-6, 1e-10],
+                "local_infeas_tol": [1e-6],
+                "theta_max": [0.5, 0.99],
+                "theta_ref": [0.25, 0.8],
+                "lamb_red": [0.25, 0.9],
+                "lamb_min": [1e-6, 1e-3],
+                "K_P": [0.0, 0.5],
+                "K_I": [0.0, 0.05],
+                "lamb_term": [1e-4],
+            }
+            for name in draw(st.lists(st.sampled_from(sorted(knobs)), min_size=1, max_size=3, unique=True)):
+                p[name] = draw(st.sampled_from(knobs[name]))
     return p
 
 
